@@ -238,11 +238,11 @@ class CheckRegion(Contract):
 
 
     def samples(self, rng, nrng, tier):
-        for r in ([0, 1, 0, 1], (0, 0, 0, 0), (1, 0, 0, 1), (0, 1, 1, 0), (0, 1, 2), (0, 1, 2, 3, 4), (-5.5, -5.5, 2, 2.0), [3, 2, 2, 1]):
+        for r in ([0, 1, 0, 1], (0, 0, 0, 0), (1, 0, 0, 1), (0, 1, 1, 0), (0, 1, 2), (0, 1, 2, 3, 4), (-5.5, -5.5, 2, 2.0), [3, 2, 2, 1], (), (0, 1), (0, 1, 2, 3, 4, 5), [0, 1, 0, 1, 0, 1, 0, 1], np.array([0.0, 1.0, 0.0, 1.0, -10.0, 0.0])):
             yield (r,), {}
 
     def configs(self, tier):
-        return [{"len": 4, "cont": "list"}, {"len": 4, "cont": "tuple"}, {"len": 3}, {"len": 5}, {"len": 0}]
+        return [{"len": 4, "cont": "list"}, {"len": 4, "cont": "tuple"}, {"len": 3}, {"len": 5}, {"len": 0}, {"len": 2}, {"len": 6}, {"len": 6, "cont": "tuple"}, {"len": 8}]
 
     def setup(self, B, cfg):
         vals = [B.real("b%d" % i) for i in range(cfg["len"])]
